@@ -44,7 +44,7 @@ func genC17(rng *rand.Rand, tier string) *sim.Plan {
 	// per node: two plain subscribers, two share-group members, one publisher
 	type nodeClients struct {
 		plain, shared []int
-		pub           int
+		pub, will     int
 	}
 	var nc []nodeClients
 	add := func(name string) int {
@@ -56,6 +56,7 @@ func genC17(rng *rand.Rand, tier string) *sim.Plan {
 		c.plain = []int{add(fmt.Sprintf("pl%da", n)), add(fmt.Sprintf("pl%db", n))}
 		c.shared = []int{add(fmt.Sprintf("sh%da", n)), add(fmt.Sprintf("sh%db", n))}
 		c.pub = add(fmt.Sprintf("pub%d", n))
+		c.will = add(fmt.Sprintf("wl%d", n))
 		nc = append(nc, c)
 	}
 	var ph sim.Phase
@@ -112,6 +113,16 @@ func genC17(rng *rand.Rand, tier string) *sim.Plan {
 				}
 			}
 		}
+		// a client with a will per node: when its connection is cut, the will is a message published on that node
+		willCut := map[int]bool{}
+		for n := 0; n < nn; n++ {
+			if chance(rng, 0.4) {
+				msg++
+				wl := &sim.Will{Topic: pick(rng, c17topics), Payload: fmt.Sprintf("w%d", msg), QoS: byte(rng.IntN(2))}
+				sp.Ops = append(sp.Ops, sim.Op{K: "connect", C: nc[n].will, Node: n, Clean: true, Will: wl})
+				willCut[n] = true
+			}
+		}
 		p.Phases = append(p.Phases, sp)
 		// propagation
 		p.Phases = append(p.Phases, sim.Phase{Ops: []sim.Op{{K: "sleep", C: -1, D: sim.Sec(2)}}})
@@ -140,6 +151,15 @@ func genC17(rng *rand.Rand, tier string) *sim.Plan {
 		}
 		p.Phases = append(p.Phases, pp)
 		p.Phases = append(p.Phases, sim.Phase{Ops: []sim.Op{{K: "sleep", C: -1, D: sim.Sec(2)}}})
+		if len(willCut) > 0 {
+			// one phase per cut, so that the order of the publications of a node is defined
+			for n := 0; n < nn; n++ {
+				if willCut[n] {
+					p.Phases = append(p.Phases, sim.Phase{Ops: []sim.Op{{K: "cut", C: nc[n].will}}})
+				}
+			}
+			p.Phases = append(p.Phases, sim.Phase{Ops: []sim.Op{{K: "sleep", C: -1, D: sim.Sec(2)}}})
+		}
 	}
 	p.Phases = append(p.Phases, sim.Phase{Ops: []sim.Op{fedDumpOp(-2)}})
 	return p
@@ -220,7 +240,24 @@ func oracleC17(p *sim.Plan, out *sim.Outcome) []sim.Violation {
 	lastRetained := map[string]ret{}
 	cnt := map[int]map[string]uint64{} // origin -> share topic -> messages routed so far (sharedSent)
 	uncertain := false
+	// the will of a connection that is cut is a message published on that node at that moment
+	var ops []*sim.OpRec
+	willOf := map[int]*sim.Will{}
 	for _, o := range h.Ops {
+		switch {
+		case o.Op.K == "connect" && o.Ack != nil && o.Ack.Code == 0:
+			willOf[o.Op.C] = o.Op.Will
+		case o.Op.K == "cut" && willOf[o.Op.C] != nil && o.Inv >= 0:
+			wl := willOf[o.Op.C]
+			willOf[o.Op.C] = nil
+			out.Probes["fed_wills"]++
+			ops = append(ops, &sim.OpRec{Idx: o.Idx, Phase: o.Phase, Inv: o.Inv, Resp: o.Resp, Result: "ok", Ack: &mqttc.Packet{},
+				Op: &sim.Op{K: "publish", C: o.Op.C, Topic: wl.Topic, Payload: wl.Payload, QoS: wl.QoS, Retain: wl.Retain}})
+			continue
+		}
+		ops = append(ops, o)
+	}
+	for _, o := range ops {
 		switch o.Op.K {
 		case "subscribe":
 			if o.Ack == nil {
